@@ -333,6 +333,7 @@ class Specializer(ast.NodeTransformer):
     visit_BoolOp = _fold
     visit_Compare = _fold
     visit_Call = _fold
+    visit_BinOp = _fold
 
     def visit_Name(self, node):
         if isinstance(node.ctx, ast.Load) and node.id in self.env:
